@@ -20,7 +20,9 @@ What a user relies on, and where exactly it stops being true:
 * audit records: `add_output` appends (always in order), `add_errors` is `extend`, a record is terminal
   iff its event is or it has an error; `SendCancelsAndOpensOutput::unrecoverable_errors` is cancels'
   errors `extend` opens' errors, so its order is the request order except in the case above; in
-  `Engine::process` `add_errors` only ever meets an empty error collection.
+  `Engine::process` `add_errors` only ever meets an empty error collection, and (since /repo a7785e6)
+  the AlgoOrders output is kept next to the errors: the audit's outputs are the first stage's output
+  followed by the algo output whenever anything was generated.
 -/
 namespace BarterModel.Props.C03N
 open BarterModel.Collections
@@ -400,16 +402,28 @@ theorem action_unrecoverable {ρc ρo ρ' κ φc φo : Type} (act : ActionOutput
 /-! ## `Engine::process`: the audit it assembles -/
 
 /-- Whatever the first stage produced and whatever generation returned: the result is a `Process`
-record for the same event, in canonical form, and `add_errors` is only ever applied to a record
-**without** errors — so at this point it is `from_iter` and cannot reorder anything. -/
+record for the same event, in canonical form; its outputs are the first stage's outputs followed by
+the algo output whenever generation returned something non-empty (`assembleOutputs`) — in particular
+also when generation carries unrecoverable errors: then the record is
+`pre.add_output(algo).add_errors(errs)`, its outputs are the pre outputs followed by the algo output
+(nothing generated is dropped), and `add_errors` meets a record **without** errors — so at this point
+it is `from_iter` and cannot reorder anything. -/
 theorem engine_assemble {ε ω κ : Type} (pre : Pre ε ω κ) (algo : Option (AlgoView ω κ)) :
     ∃ p, assemble pre algo = .process p ∧ p.event = pre.audit.event ∧ p.WF ∧
-      p.errors = assembleErrors pre algo ∧
+      p.errors = assembleErrors pre algo ∧ p.outputs.asRef = assembleOutputs pre algo ∧
       (∀ a u, algo = some a → a.isEmpty = false → a.unrecoverable = some u →
         (∀ e, pre ≠ .shutdown e) → (∀ e u' o, pre ≠ .commandFatal e u' o) →
-        pre.audit.errors = .none ∧ p = pre.audit.addErrors u.intoIter) := by
-  obtain ⟨p, h1, h2, h3, h4, h5⟩ := assemble_spec pre algo
-  exact ⟨p, h1, h2, h4, h3, h5⟩
+        p = (pre.audit.addOutput a.asOutput).addErrors u.intoIter ∧
+          (pre.audit.addOutput a.asOutput).errors = .none ∧
+          p.outputs.asRef = pre.audit.outputs.asRef ++ [a.asOutput] ∧
+          p.errors = NOM.fromIter u.intoIter) := by
+  obtain ⟨p, h1, h2, h3, h4, h5, h6⟩ := assemble_spec pre algo
+  refine ⟨p, h1, h2, h4, h3, h5, ?_⟩
+  intro a u ha hE hU hs hf
+  obtain ⟨h7, h8⟩ := h6 a u ha hE hU hs hf
+  refine ⟨h8, h7, ?_, ?_⟩
+  · rw [h8, ProcessAudit.addErrors_outputs, ProcessAudit.addOutput_outputs]
+  · rw [h8]; exact ProcessAudit.addErrors_of_none h7 _
 
 /-- the one situation in which the order of the audit's errors is not the request order -/
 def AlgoBoundary (dead : Nat → Bool) (algoC algoO : List Req) : Prop :=
@@ -420,15 +434,19 @@ def AlgoBoundary (dead : Nat → Bool) (algoC algoO : List Req) : Prop :=
 canonical `Process` record of the event whose errors are a permutation of the unrecoverable send
 failures of the stage that failed, in request order unless (`AlgoBoundary`) exactly one approved algo
 cancel and at least two approved algo opens failed; it is terminal iff the event is `Shutdown` or
-there is such a failure. -/
+there is such a failure. Its outputs are exactly the first stage's output (if any) followed by the
+AlgoOrders output whenever generation ran and the strategy generated anything — sent, failed
+(recoverably or not) or refused: nothing generated is dropped from the audit. -/
 theorem engine_audit_errors (dead : Nat → Bool) (enabled : Bool) (ev : EngEv) (algoC algoO : List Req) :
     ∃ p, engineAudit dead enabled ev algoC algoO = .process p ∧ p.event = ev ∧ p.WF ∧
+      p.outputs.asRef = specEngineOutputs dead enabled ev algoC algoO ∧
       p.errors.asRef.Perm (specEngineErrors dead enabled ev algoC algoO) ∧
       (¬ AlgoBoundary dead algoC algoO → p.errors.asRef = specEngineErrors dead enabled ev algoC algoO) ∧
       (p.isTerminal EngEv.terminal = true ↔
         ev.terminal = true ∨ specEngineErrors dead enabled ev algoC algoO ≠ []) := by
   -- the errors, computed
   have key : ∃ p, engineAudit dead enabled ev algoC algoO = .process p ∧ p.event = ev ∧ p.WF ∧
+      p.outputs.asRef = specEngineOutputs dead enabled ev algoC algoO ∧
       p.errors.asRef.Perm (specEngineErrors dead enabled ev algoC algoO) ∧
       (¬ AlgoBoundary dead algoC algoO → p.errors.asRef = specEngineErrors dead enabled ev algoC algoO) := by
     -- the generation stage, when it runs after a non-fatal first stage
@@ -437,16 +455,19 @@ theorem engine_audit_errors (dead : Nat → Bool) (enabled : Bool) (ev : EngEv) 
         ∃ p, assemble pre (if en then some ⟨(generateAlgoOrders dead algoC algoO).isEmpty,
               (generateAlgoOrders dead algoC algoO).unrecoverableErrors, .algo⟩ else none) = .process p ∧
           p.event = ev' ∧ p.WF ∧
+          p.outputs.asRef = pre.audit.outputs.asRef ++
+            (if en && !(algoC.isEmpty && algoO.isEmpty) then [Out.algo] else []) ∧
           p.errors.asRef.Perm (if en then failedSends dead (algoC.filter (!refused ·)) ++
               failedSends dead (algoO.filter (!refused ·)) else []) ∧
           (¬ AlgoBoundary dead algoC algoO →
             p.errors.asRef = if en then failedSends dead (algoC.filter (!refused ·)) ++
               failedSends dead (algoO.filter (!refused ·)) else []) := by
       intro ev' pre en hev h1 h2
-      obtain ⟨p, hp, hpe, herr, hwf, _⟩ := assemble_spec pre
+      obtain ⟨p, hp, hpe, herr, hwf, hout, _⟩ := assemble_spec pre
         (if en then some ⟨(generateAlgoOrders dead algoC algoO).isEmpty,
               (generateAlgoOrders dead algoC algoO).unrecoverableErrors, .algo⟩ else none)
-      refine ⟨p, hp, hpe.trans hev, hwf, ?_, ?_⟩
+      refine ⟨p, hp, hpe.trans hev, hwf, ?_, ?_, ?_⟩
+      · rw [hout, assembleOutputs_nonfatal pre en _ h1 h2, generateAlgoOrders_isEmpty]
       · rw [herr, assembleErrors_nonfatal pre en _ h1 h2]
         cases en
         · exact List.Perm.refl _
@@ -470,6 +491,9 @@ theorem engine_audit_errors (dead : Nat → Bool) (enabled : Bool) (ev : EngEv) 
            else failedSends dead r) →
         ∃ p, engineAudit dead enabled ev' algoC algoO = .process p ∧
           p.event = ev' ∧ p.WF ∧
+          p.outputs.asRef = [Out.cmd] ++
+            (if (failedSends dead r).isEmpty && enabled && !(algoC.isEmpty && algoO.isEmpty)
+              then [Out.algo] else []) ∧
           p.errors.asRef.Perm (specEngineErrors dead enabled ev' algoC algoO) ∧
           (¬ AlgoBoundary dead algoC algoO → p.errors.asRef = specEngineErrors dead enabled ev' algoC algoO) := by
       intro ev' r act hact hpre hspec
@@ -480,8 +504,9 @@ theorem engine_audit_errors (dead : Nat → Bool) (enabled : Bool) (ev : EngEv) 
       | none =>
         have hnil : failedSends dead r = [] := by
           rw [← sendRequests_unrec, ← hact]; exact ha.1.mp hU
-        obtain ⟨p, hp, h1, h2, h3, h4⟩ := stage ev' (Pre.command ev' Out.cmd) enabled rfl nofun nofun
-        refine ⟨p, hp, h1, h2, ?_, ?_⟩
+        obtain ⟨p, hp, h1, h2, ho, h3, h4⟩ := stage ev' (Pre.command ev' Out.cmd) enabled rfl nofun nofun
+        refine ⟨p, hp, h1, h2, ?_, ?_, ?_⟩
+        · simpa [hnil, Pre.audit, ProcessAudit.withOutput, NOM.asRef] using ho
         · simpa [hnil] using h3
         · intro hb; simpa [hnil] using h4 hb
       | some u =>
@@ -492,50 +517,82 @@ theorem engine_audit_errors (dead : Nat → Bool) (enabled : Bool) (ev : EngEv) 
           cases h : failedSends dead r with
           | nil => exact absurd h hne
           | cons _ _ => rfl
-        obtain ⟨p, hp, hpe, herr, hwf, _⟩ := assemble_spec (Pre.commandFatal ev' u Out.cmd)
+        obtain ⟨p, hp, hpe, herr, hwf, hout, _⟩ := assemble_spec (Pre.commandFatal ev' u Out.cmd)
           (if enabled then some ⟨(generateAlgoOrders dead algoC algoO).isEmpty,
               (generateAlgoOrders dead algoC algoO).unrecoverableErrors, .algo⟩ else none)
         have hval : p.errors.asRef = failedSends dead r := by
           rw [herr]
           simp only [assembleErrors, NOM.fromIter_asRef, OOM.intoIter_eq, hu1, hact, sendRequests_unrec]
-        refine ⟨p, hp, hpe, hwf, ?_, ?_⟩
+        refine ⟨p, hp, hpe, hwf, ?_, ?_, ?_⟩
+        · rw [hout]; simp [assembleOutputs, Pre.audit, NOM.asRef, hne']
         · simp only [hne', Bool.false_eq_true, if_false]; exact hval ▸ List.Perm.refl _
         · intro _; simp only [hne', Bool.false_eq_true, if_false]; exact hval
+    have hspecO : ∀ ev', specEngineOutputs dead enabled ev' algoC algoO =
+        firstOutputs enabled ev' ++
+          (if !ev'.terminal && !cmdFailed dead ev' && enabledAfter enabled ev' &&
+              !(algoC.isEmpty && algoO.isEmpty) then [Out.algo] else []) := by
+      intro ev'; unfold specEngineOutputs; split <;> simp
     cases ev with
     | shutdown =>
       exact ⟨ProcessAudit.withEvent .shutdown, rfl, rfl, ⟨trivial, trivial⟩,
+        by rw [hspecO]; simp [firstOutputs, EngEv.terminal, ProcessAudit.withEvent, NOM.asRef],
         by simp [specEngineErrors, EngEv.terminal, ProcessAudit.withEvent, NOM.asRef],
         fun _ => by simp [specEngineErrors, EngEv.terminal, ProcessAudit.withEvent, NOM.asRef]⟩
     | cmdCancel r =>
-      exact cmd (.cmdCancel r) r (.cancelOrders (sendRequests dead r)) rfl rfl
+      obtain ⟨p, hp, h1, h2, ho, h3, h4⟩ := cmd (.cmdCancel r) r (.cancelOrders (sendRequests dead r)) rfl rfl
         (by simp [specEngineErrors, EngEv.terminal])
+      refine ⟨p, hp, h1, h2, ?_, h3, h4⟩
+      rw [ho, hspecO]
+      cases hf : failedSends dead r <;> simp [firstOutputs, cmdFailed, enabledAfter, EngEv.terminal, hf]
     | cmdOpen r =>
-      exact cmd (.cmdOpen r) r (.openOrders (sendRequests dead r)) rfl rfl
+      obtain ⟨p, hp, h1, h2, ho, h3, h4⟩ := cmd (.cmdOpen r) r (.openOrders (sendRequests dead r)) rfl rfl
         (by simp [specEngineErrors, EngEv.terminal])
+      refine ⟨p, hp, h1, h2, ?_, h3, h4⟩
+      rw [ho, hspecO]
+      cases hf : failedSends dead r <;> simp [firstOutputs, cmdFailed, enabledAfter, EngEv.terminal, hf]
     | tsOn =>
-      obtain ⟨p, hp, h1, h2, h3, h4⟩ := stage .tsOn (Pre.update .tsOn none) true rfl nofun nofun
-      exact ⟨p, hp, h1, h2, by simpa [specEngineErrors, EngEv.terminal] using h3,
+      obtain ⟨p, hp, h1, h2, ho, h3, h4⟩ := stage .tsOn (Pre.update .tsOn none) true rfl nofun nofun
+      refine ⟨p, hp, h1, h2, ?_,
+        by simpa [specEngineErrors, EngEv.terminal] using h3,
         fun hb => by simpa [specEngineErrors, EngEv.terminal] using h4 hb⟩
+      rw [ho, hspecO]
+      simp [firstOutputs, cmdFailed, enabledAfter, EngEv.terminal, Pre.audit, ProcessAudit.withOutput,
+          ProcessAudit.withEvent, NOM.asRef]
     | tsOff =>
-      obtain ⟨p, hp, h1, h2, h3, h4⟩ :=
-        stage .tsOff (Pre.update .tsOff (if enabled then some (.td 0) else none)) false
-          (by cases enabled <;> rfl) nofun nofun
-      exact ⟨p, hp, h1, h2, by simpa [specEngineErrors, EngEv.terminal] using h3,
+      obtain ⟨p, hp, h1, h2, ho, h3, h4⟩ := stage .tsOff (Pre.update .tsOff (if enabled then some (.td 0) else none)) false
+        (by cases enabled <;> rfl) nofun nofun
+      refine ⟨p, hp, h1, h2, ?_,
+        by simpa [specEngineErrors, EngEv.terminal] using h3,
         fun hb => by simpa [specEngineErrors, EngEv.terminal] using h4 hb⟩
+      rw [ho, hspecO]
+      cases enabled <;> simp [firstOutputs, cmdFailed, enabledAfter, EngEv.terminal, Pre.audit, ProcessAudit.withOutput,
+          ProcessAudit.withEvent, NOM.asRef]
     | mkt =>
-      obtain ⟨p, hp, h1, h2, h3, h4⟩ := stage .mkt (Pre.update .mkt none) enabled rfl nofun nofun
-      exact ⟨p, hp, h1, h2, by simpa [specEngineErrors, EngEv.terminal] using h3,
+      obtain ⟨p, hp, h1, h2, ho, h3, h4⟩ := stage .mkt (Pre.update .mkt none) enabled rfl nofun nofun
+      refine ⟨p, hp, h1, h2, ?_,
+        by simpa [specEngineErrors, EngEv.terminal] using h3,
         fun hb => by simpa [specEngineErrors, EngEv.terminal] using h4 hb⟩
+      rw [ho, hspecO]
+      simp [firstOutputs, cmdFailed, enabledAfter, EngEv.terminal, Pre.audit, ProcessAudit.withOutput,
+          ProcessAudit.withEvent, NOM.asRef]
     | mktRe =>
-      obtain ⟨p, hp, h1, h2, h3, h4⟩ := stage .mktRe (Pre.update .mktRe (some (.md 0))) enabled rfl nofun nofun
-      exact ⟨p, hp, h1, h2, by simpa [specEngineErrors, EngEv.terminal] using h3,
+      obtain ⟨p, hp, h1, h2, ho, h3, h4⟩ := stage .mktRe (Pre.update .mktRe (some (.md 0))) enabled rfl nofun nofun
+      refine ⟨p, hp, h1, h2, ?_,
+        by simpa [specEngineErrors, EngEv.terminal] using h3,
         fun hb => by simpa [specEngineErrors, EngEv.terminal] using h4 hb⟩
+      rw [ho, hspecO]
+      simp [firstOutputs, cmdFailed, enabledAfter, EngEv.terminal, Pre.audit, ProcessAudit.withOutput,
+          ProcessAudit.withEvent, NOM.asRef]
     | accRe =>
-      obtain ⟨p, hp, h1, h2, h3, h4⟩ := stage .accRe (Pre.update .accRe (some (.ad 0))) enabled rfl nofun nofun
-      exact ⟨p, hp, h1, h2, by simpa [specEngineErrors, EngEv.terminal] using h3,
+      obtain ⟨p, hp, h1, h2, ho, h3, h4⟩ := stage .accRe (Pre.update .accRe (some (.ad 0))) enabled rfl nofun nofun
+      refine ⟨p, hp, h1, h2, ?_,
+        by simpa [specEngineErrors, EngEv.terminal] using h3,
         fun hb => by simpa [specEngineErrors, EngEv.terminal] using h4 hb⟩
-  obtain ⟨p, hp, hev, hwf, hperm, hex⟩ := key
-  refine ⟨p, hp, hev, hwf, hperm, hex, ?_⟩
+      rw [ho, hspecO]
+      simp [firstOutputs, cmdFailed, enabledAfter, EngEv.terminal, Pre.audit, ProcessAudit.withOutput,
+          ProcessAudit.withEvent, NOM.asRef]
+  obtain ⟨p, hp, hev, hwf, hout, hperm, hex⟩ := key
+  refine ⟨p, hp, hev, hwf, hout, hperm, hex, ?_⟩
   rw [ProcessAudit.isTerminal_iff hwf.2, hev]
   have : p.errors.asRef ≠ [] ↔ specEngineErrors dead enabled ev algoC algoO ≠ [] := by
     constructor
@@ -563,6 +620,11 @@ example : ((OOM.one 1).extend [] : OOM Int) = .many [1] := rfl
 example : (match engineAudit (fun e => e == 1 || e == 2) true .mkt [(1, 1)] [(2, 2), (2, 3)] with
     | .process p => p.errors.asRef | .feedEnded => []) = [2, 2, 1] := by decide
 example : specEngineErrors (fun e => e == 1 || e == 2) true .mkt [(1, 1)] [(2, 2), (2, 3)] = [1, 2, 2] := by
+  decide
+-- since /repo a7785e6 the AlgoOrders output stays in the audit next to the errors
+example : (match engineAudit (fun e => e == 1 || e == 2) true .mktRe [(1, 1)] [(2, 2), (2, 3)] with
+    | .process p => p.outputs | .feedEnded => .none) = .many [.md 0, .algo] := by decide
+example : specEngineOutputs (fun e => e == 1 || e == 2) true .mktRe [(1, 1)] [(2, 2), (2, 3)] = [.md 0, .algo] := by
   decide
 example : AlgoBoundary (fun e => e == 1 || e == 2) [(1, 1)] [(2, 2), (2, 3)] := by
   simp [AlgoBoundary, failedSends, refused]
